@@ -100,8 +100,11 @@ structure Inst where
   /-- the storage directory (operator id) and the number of the WAL file the next checkpoint seals -/
   dir : Nat := 0
   walNext : Nat := 0
-  /-- ghost: every table this instance has ever written -/
+  /-- ghost: every table this instance has ever written or loaded -/
   made : List Path := []
+  /-- ghost: the operator lineage — the number of the instance that was opened empty and of which this one is a
+  (transitive) restart -/
+  lin : Nat := 0
 deriving Repr
 
 structure State where
@@ -185,6 +188,9 @@ inductive Act where
   | compact (i : Nat) (rm : List Path) (add : List Tbl)
   | ckpt (i id : Nat) (wal : Wal)
   | jobDrop (k : Nat)
+  /-- the job gives up checkpoint `id` (it was never completed by every operator, or the job rolls back past it):
+  like `jobDrop` a decision of the JOB — nothing else removes a handle from `retained` -/
+  | jobAbandon (id : Nat)
   | retain (i : Nat) (ids : List Nat)
   | snap (i : Nat)
   | unsnap (i k : Nat)
@@ -195,13 +201,14 @@ inductive Act where
   loading): `o.db` is assigned only after `dkv.Open` returned, so the operator keeps serving — and answering
   `NeedsTable` from — the instance it had -/
   | redeployFailed (i : Nat)
-  /-- D63, the OLD rule (before the repair f9820ca): an instance dropped inside a living process (`release`) still has
-  a flush or compaction in flight; the task finishes later and saves a table file under the name its own numbering
-  reserved — a name the instance reopened in the same directory may have used meanwhile. The file that had this name
-  is overwritten: its content is gone (an overwrite is a deletion). The code now closes the previous database —
-  `DB.Close` waits for every background task the instance enqueued — before `HandleDeploy` reopens the directory
-  (`quiesced`: facts `c09DeployClosesFirst`, `c09CloseWaits`), so this action is not a behaviour of the code any
-  more; it is kept for the regression witness and is outside every theorem scope. -/
+  /-- D63 / D70: an instance dropped inside a living process (`release`) still writes a table file later, under the
+  name its own numbering reserved — a name the instance reopened in the same directory may have used meanwhile. The
+  file that had this name is overwritten or deleted with the late table object: its content is gone. D63 (repaired,
+  f9820ca) was the case of a flush or compaction already in flight at the redeploy: the code now closes the previous
+  database first and `DB.Close` waits for every background task enqueued so far (`drained`). D70 (open) is what is
+  left: `Close` does not stop intake, and the operator's event goroutine can still apply a batch to the old store
+  until `dkv.Open` has returned, so a flush enqueued AFTER `Close` returned lands in the reopened directory
+  (`fenced` is false). The action is outside every theorem scope. -/
   | lateWrite (i : Nat) (t : Tbl)
 deriving Repr
 
@@ -269,25 +276,45 @@ def saveDoc (s : State) (i dir : Nat) : List Nat :=
 /-- the file a late background write leaves under the name `u`: same name, other content -/
 def lateName (u : Path) : Path := u ++ "'"
 
-/-- the code's rule that rules `lateWrite` out: the previous instance of a directory is closed, its background
-tasks waited for, before the directory is reopened (read from the source on every run) -/
-def quiesced : Bool := Facts.c09DeployClosesFirst == 1 && Facts.c09CloseWaits == 1
+/-- a new, empty instance -/
+@[reducible] def freshInst (range : KGRange) (gen : Nat) (nbrs : List KGRange) (dir lin : Nat) : Inst :=
+  { gen := gen, range := range, nbrs := nbrs, dir := dir, lin := lin }
+
+/-- an instance restored from a composite checkpoint with tables `ts` and WALs `wl` -/
+@[reducible] def restoredInst (range : KGRange) (gen : Nat) (nbrs : List KGRange) (ts : List Tbl) (wl : List Wal)
+    (id dir lin : Nat) : Inst :=
+  { gen := gen, range := range, nbrs := nbrs, current := ts, loaded := ts, ckpts := [⟨id, ts, wl, true⟩],
+    src := some id, dir := dir, walNext := nextWalId wl, made := uris ts, lin := lin }
+
+/-- the lineage of the first writer a restore reads from -/
+def linOf (s : State) (ws : List Nat) : Nat :=
+  match ws with
+  | w :: _ => match s.insts[w]? with
+    | some y => y.lin
+    | none => 0
+  | [] => 0
+
+/-- the code's rules about the previous instance of a directory at a redeploy, read from the source on every run:
+`drained` — `HandleDeploy` closes the previous database before it reopens the directory, and `DB.Close` waits for every
+background task the instance had enqueued (the D63 repair); `fenced` — nothing can write to the closed instance
+afterwards. `lateWrite` is impossible only if both hold. As the code is, `fenced` is false (D70): the operator's event
+goroutine applies a batch to the old store without the operator's mutex, `Close` drains once and does not stop intake,
+so a flush enqueued after `Close` returned still lands in the reopened directory. -/
+def drained : Bool := Facts.c09DeployClosesFirst == 1 && Facts.c09CloseWaits == 1
+def fenced : Bool := Facts.c09WritersFenced == 1
+def quiesced : Bool := drained && fenced
 
 def step (s : State) : Act → Option State
   | .openFresh range gen nbrs dir =>
-    some { s with insts := s.insts ++ [{ gen := gen, range := range, nbrs := nbrs, dir := dir }] }
+    some { s with insts := s.insts ++ [freshInst range gen nbrs dir s.insts.length] }
   | .openFrom range gen nbrs ws id dir =>
     -- `recovery.LoadCheckpointList`: the entries with the handle's id of every document, merged into one checkpoint
     match ws, gather s ws id with
     | [], _ => none
     | _ :: _, none => none
     | _ :: _, some (ts, wl) =>
-      some { s with
-        insts := s.insts ++ [{ gen := gen, range := range, nbrs := nbrs, current := ts, loaded := ts,
-                               ckpts := [⟨id, ts, wl, true⟩], src := some id, dir := dir,
-                               walNext := nextWalId wl }],
-        -- ghost: restarting from checkpoint `id` abandons the newer checkpoints of writers that are gone
-        retained := s.retained.filter fun h => h.id ≤ id || writerAlive s h.writer }
+      -- the job's retained set is untouched: a restart does not drop any checkpoint
+      some { s with insts := s.insts ++ [restoredInst range gen nbrs ts wl id dir (linOf s ws)] }
   | .flush i t =>
     match s.insts[i]? with
     | none => none
@@ -322,6 +349,7 @@ def step (s : State) : Act → Option State
     if k < s.nextId then
       some { s with retained := s.retained.filter (fun h => k < h.id), floor := max s.floor k }
     else none
+  | .jobAbandon id => some { s with retained := s.retained.filter (fun h => h.id != id) }
   | .retain i ids =>
     match s.insts[i]? with
     | none => none
@@ -443,18 +471,27 @@ def aliveAt (s : State) (i : Nat) : Bool :=
   | some x => decide (x.life = .alive)
   | none => false
 
+/-- the restart uses the NEWEST checkpoint the job retains of the operator (lineage) of instance `w`: no retained
+handle written by an instance of that lineage has a larger id (D68: the restarted instance knows only the checkpoint
+it restored from, so newer retained checkpoints of its predecessors lose their tables once it drops that one) -/
+def newestOf (s : State) (w id : Nat) : Bool :=
+  s.retained.all fun h => decide (h.id ≤ id) || (match s.insts[h.writer]? with
+    | some y => y.lin != linOf s [w]
+    | none => true)
+
 /-- * an instance is opened only when no other is running — empty when the job has no checkpoint, otherwise from ONE
-  checkpoint handle the job still retains;
+  checkpoint handle the job still retains, the NEWEST one it retains (a restart from an older retained checkpoint
+  while a newer one is retained is D68; to roll back further the job first abandons the newer ones, `jobAbandon`);
 * every instance gets a storage directory of its own (directory number = instance number);
 * no instance is released inside a living process (D25), and a dead process runs no cleanups; that no background
-  write of a previous instance lands after its directory was reopened (`lateWrite`, D63) is a rule of the code
-  (`quiesced`), not an assumption;
+  write of a previous instance lands after its directory was reopened (`lateWrite`: D63 repaired for tasks in flight,
+  `drained`; D70 open for writes accepted after `Close`) is an assumption — this scope has no in-process redeploy anyway;
 * the job asks an operator to drop only checkpoints it has dropped (oldest first: `jobDrop`). -/
 def inScopeL (s : State) : Act → Bool
   | .openFresh _ _ _ dir => noneAlive s && s.retained.isEmpty && dir == s.insts.length
   | .openFrom _ _ _ ws id dir =>
     noneAlive s && dir == s.insts.length && (match ws with
-      | [w] => s.retained.any fun h => h.writer == w && h.id == id
+      | [w] => (s.retained.any fun h => h.writer == w && h.id == id) && s.retained.all fun h => decide (h.id ≤ id)
       | _ => false)
   | .release _ => false
   | .lateWrite .. => false
@@ -489,6 +526,37 @@ def runN (s : State) : List Act → Option State
   | a :: as => if inScopeN s a then
       match step s a with
       | some s' => runN s' as
+      | none => none
+    else none
+
+
+/-! ## scope of the composed theorem: operators running at the same time, each of which may crash and be restarted -/
+
+/-- Several operator lineages side by side. An operator is opened empty at any moment (a new lineage), or — when no
+instance of that lineage is running — restored from ONE checkpoint handle the job still retains, written by an earlier
+instance of a lineage (a restart of that operator) and the NEWEST the job retains of that lineage (`newestOf`: to roll
+back further the job first abandons the newer ones, `jobAbandon`; otherwise D68); every instance gets a storage directory of its own; operators
+never restore from another running lineage's handle at the same time as that lineage runs (no shared tables); no
+in-process release (D25) and hence no late writes of a released instance (D63 repaired / D70 open), a dead process runs no cleanups, the
+job asks an operator to drop only checkpoints it has dropped. -/
+def inScopeC (s : State) : Act → Bool
+  | .openFresh _ _ _ dir => dir == s.insts.length
+  | .openFrom _ _ _ ws id dir =>
+    dir == s.insts.length && (match ws with
+      | [w] => (s.retained.any fun h => h.writer == w && h.id == id) && newestOf s w id &&
+          s.insts.all (fun y => !(decide (y.life = .alive) && y.lin == linOf s [w]))
+      | _ => false)
+  | .release _ => false
+  | .lateWrite .. => false
+  | .retain i ids => retainOk s i ids
+  | .collect i _ _ => aliveAt s i
+  | _ => true
+
+def runC (s : State) : List Act → Option State
+  | [] => some s
+  | a :: as => if inScopeC s a then
+      match step s a with
+      | some s' => runC s' as
       | none => none
     else none
 
